@@ -1362,15 +1362,18 @@ impl DtlsInner {
             if let Some(keys) = &ctx.session_keys {
                 let crypto = create_session_crypto(keys.clone())?;
                 let state = DtlsState::Connected(Arc::new(crypto), ctx.srtp_profile);
-                *self.state.lock() = state.clone();
-                #[cfg(rustrtc_verif)]
-                crate::verif_hooks::dtls::publish_point(Arc::as_ptr(&self.state) as usize, 1);
+                // Publish the write epoch and sequence number before the state: `send()`
+                // checks the state first, so a concurrent sender must never see `Connected`
+                // with the counters still unset (it would reuse the Finished record's nonce).
                 self.write_epoch.store(ctx.epoch, Ordering::SeqCst);
                 #[cfg(rustrtc_verif)]
                 crate::verif_hooks::dtls::publish_point(Arc::as_ptr(&self.state) as usize, 2);
                 self.write_seq.store(ctx.sequence_number, Ordering::SeqCst);
                 #[cfg(rustrtc_verif)]
                 crate::verif_hooks::dtls::publish_point(Arc::as_ptr(&self.state) as usize, 3);
+                *self.state.lock() = state.clone();
+                #[cfg(rustrtc_verif)]
+                crate::verif_hooks::dtls::publish_point(Arc::as_ptr(&self.state) as usize, 1);
                 let _ = self.state_tx.send(state);
                 debug!("DTLS handshake complete (server role) (remote={})", self.conn.remote_addr.read());
                 // Clear ephemeral secret as handshake is complete
@@ -1401,15 +1404,18 @@ impl DtlsInner {
                         let crypto = create_session_crypto(keys.clone())?;
 
                         let state = DtlsState::Connected(Arc::new(crypto), ctx.srtp_profile);
-                        *self.state.lock() = state.clone();
-                        #[cfg(rustrtc_verif)]
-                        crate::verif_hooks::dtls::publish_point(Arc::as_ptr(&self.state) as usize, 1);
+                        // Publish the write epoch and sequence number before the state: `send()`
+                        // checks the state first, so a concurrent sender must never see `Connected`
+                        // with the counters still unset (it would reuse the Finished record's nonce).
                         self.write_epoch.store(ctx.epoch, Ordering::SeqCst);
                         #[cfg(rustrtc_verif)]
                         crate::verif_hooks::dtls::publish_point(Arc::as_ptr(&self.state) as usize, 2);
                         self.write_seq.store(ctx.sequence_number, Ordering::SeqCst);
                         #[cfg(rustrtc_verif)]
                         crate::verif_hooks::dtls::publish_point(Arc::as_ptr(&self.state) as usize, 3);
+                        *self.state.lock() = state.clone();
+                        #[cfg(rustrtc_verif)]
+                        crate::verif_hooks::dtls::publish_point(Arc::as_ptr(&self.state) as usize, 1);
                         let _ = self.state_tx.send(state);
                         debug!("DTLS handshake complete (client role) (remote={})", self.conn.remote_addr.read());
                         ctx.local_secret = None;
